@@ -49,8 +49,14 @@ structure State where
   inbounds : List (Option InboundEnd) := []
   responders : List Responder := []
   timers : List (Fut × Nat) := []
+  /-- request futures whose write cannot finish (nobody reads the far end and the request exceeds the
+  flow-control window): they only end by the first-stage timeout. -/
+  stalled : List Fut := []
 
 def init : State := {}
+
+/-- yamux receive window: what can be written on a substream nobody reads. -/
+def window : Nat := 262144
 
 def varintLen (n : Nat) : Nat := if n < 128 then 1 else 1 + varintLen (n / 128)
 decreasing_by omega
@@ -229,9 +235,19 @@ def stepOp (st : State) (ts : List String) : State × String :=
       let k := st.sends.length
       let rid := st.s.nextRid
       let st := { st with sends := st.sends ++ [rid] }
-      let st := proto st (.send p ⟨len, fill⟩ opts (dialAnswer p) (openAnswer st p 0))
+      let st := proto st (.send p ⟨⟨len, fill⟩, none⟩ opts (dialAnswer p) (openAnswer st p 0))
       finish st old ("r" ++ toString k)
     | _, _, _, _ => (st, "bad-op")
+  | ["sendfb", p, len, fill, mode, fbn, flen, ffill] =>
+    match p.toNat?, len.toNat?, fill.toNat?, (if mode = "dial" then some DialOptions.dial else if mode = "reject" then some .reject else none),
+      fbn.toNat?, flen.toNat?, ffill.toNat? with
+    | some p, some len, some fill, some opts, some fbn, some flen, some ffill =>
+      let k := st.sends.length
+      let rid := st.s.nextRid
+      let st := { st with sends := st.sends ++ [rid] }
+      let st := proto st (.send p ⟨⟨len, fill⟩, some (fbn, ⟨flen, ffill⟩)⟩ opts (dialAnswer p) (openAnswer st p 0))
+      finish st old ("r" ++ toString k)
+    | _, _, _, _, _, _, _ => (st, "bad-op")
   | ["cancel", r] =>
     match (index? 'r' r).bind (st.sends[·]?) with
     | some rid =>
@@ -239,7 +255,7 @@ def stepOp (st : State) (ts : List String) : State × String :=
       -- an effective cancel completes the future at once
       let st := if st.s.cancelSent.length > old.cancelSent.length then
           match st.s.pendingInbound.find? (·.rid == rid) with
-          | some f => completeFut st f (.error .canceled)
+          | some f => if st.stalled.contains f then st else completeFut st f (.error .canceled)
           | none => st
         else st
       finish st old "ok"
@@ -297,16 +313,28 @@ def stepOp (st : State) (ts : List String) : State × String :=
       | some (sid, p, ctx) =>
         let st := { st with opens := st.opens.filter (fun o => o.1 != sid) }
         if kind = "subopen" then
-          let st := proto st (.outboundSubstream p sid)
+          -- `fb=<n>`: the substream was negotiated with fallback protocol `n`;
+          -- `noread`: nobody ever reads the far end
+          let fb := (arg? "fb" rest).bind (·.toNat?)
+          let noread := rest.contains "noread"
+          let st := proto st (.outboundSubstream p sid fb)
           let f : Fut := ⟨p, ctx.rid, sid⟩
-          if ctx.request.len ≤ st.max then
+          let pl := ctx.request.payloadFor fb
+          if pl.len ≤ st.max then
+            if noread then
+              let st := { st with
+                responders := st.responders.filter (·.k != k)
+                timers := st.timers ++ [(f, st.now + st.timeout)]
+                stalled := if varintLen pl.len + pl.len > window then f :: st.stalled else st.stalled }
+              finish st old "opened:unread"
+            else
             let st := { st with
               responders := ⟨k, sid, f, true⟩ :: st.responders.filter (·.k != k)
               timers := st.timers ++ [(f, st.now + st.timeout)] }
-            finish st old ("opened:" ++ showPayload ctx.request)
+            finish st old ("opened:" ++ showPayload pl)
           else
             let st := { st with responders := ⟨k, sid, f, false⟩ :: st.responders.filter (·.k != k) }
-            finish (completeFut st f (.error .tooLargePayload)) old "opened:nothing"
+            finish (completeFut st f (.error .tooLargePayload)) old (if noread then "opened:unread" else "opened:nothing")
         else
           let err : SubErr := match rest.head? with
             | some "unsupported" => .unsupported
